@@ -89,16 +89,22 @@ pub enum Mode {
 pub struct Listeners {
     pub logs: [Arc<Mutex<Vec<String>>>; 3],
     pub panics: [bool; 3],
+    /// events delivered while the delivering thread held one of the layer's (instrumented,
+    /// blocking) locks: a listener that looks into the same layer would deadlock there
+    pub inside_lock: Arc<Mutex<Vec<String>>>,
 }
 
 impl Listeners {
     pub fn new(panics: [bool; 3]) -> Arc<Listeners> {
-        Arc::new(Listeners { logs: [Default::default(), Default::default(), Default::default()], panics })
+        Arc::new(Listeners { logs: [Default::default(), Default::default(), Default::default()], panics, inside_lock: Default::default() })
     }
     pub fn hook(self: &Arc<Self>, i: usize) -> impl Fn(&str) + Send + Sync + Clone + 'static {
         let me = self.clone();
         move |ev: &str| {
             me.logs[i].lock().unwrap().push(ev.to_string());
+            if tower_resilience_core::verif::sync::locks_held() > 0 {
+                me.inside_lock.lock().unwrap().push(ev.to_string());
+            }
             if me.panics[i] {
                 panic!("listener {i} panics on purpose");
             }
